@@ -74,6 +74,10 @@ def shrink(c):
 
 
 ADVERSARIAL = [
+    {"src": "def f1(p=0):\n    t(1, 1)\n    if p == 99:\n        zz = 0\n    bx.v = bx.v + 1\n    return zz\ntry:\n    f1()\nexcept NameError as e:\n    u = [type(e).__name__, bx.v]\n",
+     "events": ["load_name", "after_stmt"], "guards": True},
+    {"src": "def f1(p=0):\n    bx.items.append(t(1, 9))\n    raise NameError(\"nn\")\ndef f2():\n    t(2, 2)\n    return f1()\ntry:\n    f2()\nexcept NameError as e:\n    u = len(bx.items)\n",
+     "events": ["after_assign_rhs"], "guards": False},
     {"src": "slice = 5\nu = [1, 2, 3][0:2]\n", "events": ["load_name"], "guards": True, "adversarial": "rebinds-builtin"},
     {"src": "BaseException = ValueError\ntry:\n    raise KeyError(1)\nexcept:\n    u = 1\n", "events": ["load_name"], "guards": True, "adversarial": "rebinds-builtin"},
     {"src": "def f1():\n    for i in range(2):\n        global a\n        a = i\n    return a\nb = f1()\n", "events": ["load_name"], "guards": True, "adversarial": "nested-decl"},
